@@ -239,7 +239,38 @@ def observe_large(c, rng):
     return {"cfg": c, "write_ok": write_ok, "read_ok": read_ok, "num_ok": num_ok, "roundtrip_ok": roundtrip_ok, "max_rel_err": max(errs)}
 
 
+def observe_siblings(cfgs, rng):
+    """Several wrappers ALIVE AT THE SAME TIME whose advertised array shapes coincide although their transforms differ (the batch
+    index first or last, ntransform equal to a neighbouring dimension): every wrapper must still compute ITS transform -- evaluated
+    after all of them were constructed, in construction order and in reverse."""
+    ws = []
+    for c in cfgs:
+        ws.append((c, FFTWrapper(list(c["dims"]), ntransform=c["nt"], fwd=c["fwd"], r2c=c["r2c"], inplace=c["inplace"], batch_first=c["bf"])))
+    out = []
+    for order in (ws, ws[::-1]):
+        for c, w in order:
+            in_real = c["r2c"] and c["fwd"]
+            out_real = c["r2c"] and not c["fwd"]
+            ish = tuple(w.input_shape)
+            if out_real:
+                x = hermitian_input(rng, c, ish)
+            elif in_real:
+                x = rng.normal(size=ish)
+            else:
+                x = rng.normal(size=ish) + 1j * rng.normal(size=ish)
+            x0 = x.copy()
+            y = w.call(x)
+            ref = ref_dft(x0.astype(np.complex128) if not in_real else x0, c)
+            tol = 1e-11 * max(1, int(np.prod(c["dims"])))
+            e = float(np.abs(y - ref).max()) / max(1.0, float(np.abs(ref).max())) if y.shape == ref.shape else float("inf")
+            out.append({"cfg": c, "err": e, "ok": bool(e <= tol)})
+    return out
+
+
 def worker(job):
+    if job.get("kind") == "siblings":
+        rng = np.random.default_rng(job["seed"])
+        return {"id": job["id"], "siblings": observe_siblings(job["plans"], rng)}
     if job.get("kind") == "large":
         rng = np.random.default_rng(job["seed"])
         return {"id": job["id"], "large": [observe_large(c, rng) for c in job["plans"]]}
@@ -297,12 +328,34 @@ def main():
              for d in LARGE_DIMS for r2c, fwd, inplace, bf in itertools.product([False, True], repeat=4)
              for nt in ((1, 2) if ck.tier == "quick" else (1, 2, 3, 4))]
     jobs += [{"id": nchunk + j, "kind": "large", "plans": large[j::16], "seed": ck.seed + 1000 + j} for j in range(16)]
+    # families of plans with coinciding array shapes, all alive together
+    fams = []
+    for n in (2, 3, 4, 6):
+        fams.append([{"dims": [n], "r2c": r2c, "fwd": fwd, "inplace": inplace, "bf": bf, "nt": n}
+                     for r2c, fwd, inplace, bf in itertools.product([False, True], repeat=4)])
+    for a, b, c_ in ((3, 4, 4), (2, 2, 3), (4, 3, 4), (2, 3, 2)):
+        fams.append([{"dims": list(d), "r2c": r2c, "fwd": fwd, "inplace": inplace, "bf": bf, "nt": nt}
+                     for d, nt in (((a, b), c_), ((b, c_), a), ((a, c_), b), ((c_, b), a), ((b, a), c_))
+                     for r2c, fwd, inplace, bf in itertools.product([False, True], repeat=4)])
+    jobs += [{"id": nchunk + 100 + j, "kind": "siblings", "plans": fam, "seed": ck.seed + 2000 + j} for j, fam in enumerate(fams)]
     recs = []
-    nlarge = 0
+    nlarge = nsib = 0
     for res in run_workers(os.path.abspath(__file__), jobs, nproc=16, timeout=7000, allow_crash=True):
         if "worker_died" in res and any(job.get("kind") == "large" for job in res["jobs"]):
             cfgs = [c for job in res["jobs"] for c in job["plans"]]
             ck.violation("plan:large:process-died", {"returncode": res["worker_died"], "first_cfgs": cfgs[:3], "log": res["log"][-600:]}, replay={"cfg": cfgs[0]})
+            continue
+        if "worker_died" in res and any(job.get("kind") == "siblings" for job in res["jobs"]):
+            ck.violation("plan:siblings:process-died", {"returncode": res["worker_died"], "log": res["log"][-600:]})
+            continue
+        if "siblings" in res:
+            for o in res["siblings"]:
+                c = o["cfg"]
+                nsib += 1
+                ck.count(key=("siblings", tuple(c["dims"]), c["r2c"], c["fwd"], c["inplace"], c["bf"], c["nt"]))
+                if not o["ok"]:
+                    ck.violation("plan:siblings:r2c=%d,fwd=%d,inplace=%d,bf=%d:another-live-wrapper-changes-the-transform" % (c["r2c"], c["fwd"], c["inplace"], c["bf"]),
+                                 {"cfg": c, "max_rel_err": o["err"]}, replay={"cfg": c})
             continue
         if "large" in res:
             for o in res["large"]:
@@ -335,6 +388,7 @@ def main():
     for rec in recs[:3]:
         ck.sample({kk: rec[kk] for kk in ("cfg", "plan", "w", "fin", "max_rel_err")})
     ck.log("observed %d plans on the implementation, and %d large plans at block-size boundaries" % (len(recs), nlarge))
+    ck.extra["sibling_plans"] = "%d evaluations of wrappers kept alive together in families with coinciding array shapes" % nsib
     ck.extra["large_plans"] = "%d plans with totals of 2^12..2^16 elements and their neighbours (%s): copy maps complete and injective, DFT equals numpy twice, round trip" % (nlarge, LARGE_DIMS)
     res = validate_records("Trace_FFTLayout", "Trace_FFTLayout.cfg", recs, nchunks=8 if ck.tier == "quick" else 16, timeout=1800 if ck.tier == "quick" else 10000)
     ck.traces += res["accepted"]
